@@ -96,4 +96,11 @@ example :
     (runCodesTrace 10 [] [code]).2.toList = [("__main__", 0, 0), ("__main__", 2, 1), ("__main__", 4, 2)] := by
   decide
 
+/-- the repaired defect, kept as a checked statement: before the repair a set literal holding a
+    list evaluated to an error VALUE (nothing was raised); the reference semantics and the repaired
+    VM raise a type error -/
+theorem C01_fixed_set_literal_was_error_value :
+    buildSetPreFix [.list 0, .int 2] = some (.err "type" none) ∧ buildSetPreFix [.int 1, .int 2] = none := by
+  constructor <;> rfl
+
 end Risor.C01
